@@ -222,6 +222,7 @@ class Ctx:
                 "known_findings_hit": [{"key": v.key, "where": v.where, "what": e["what"]} for v, e in known_hits],
                 "violations_detail": [v.to_json() for v in new_violations][:50],
                 "inventory": self.inventory,
+                "job_pools": dict(__import__("fqrlint.cache", fromlist=["EVENTS"]).EVENTS),
                 "notes": self.notes,
             },
             "assumptions": (assumptions or []) + self.assumptions,
